@@ -68,9 +68,13 @@ fn refine(args: &[String]) {
         let mut inst = Inst::new(id, &cfg, g.next(), g.below(4) as u8, g.below(256) as u8);
         let mut pending: Vec<(u128, MTimer)> = vec![];
         let mut now: u128 = 0;
-        for s in 0..steps {
+        let (pk, plen) = pick_prelude(&mut g);
+        for s in 0..steps + plen {
             let pre = inst.snapshot();
-            let input = gen_input(&mut g, &pre, &mut pending, &cfg);
+            let input = match prelude_input(pk, s, plen, &pre) {
+                Some(i) => i,
+                None => gen_input(&mut g, &pre, &mut pending, &cfg),
+            };
             if let Input::Timer(_) = &input {
                 now += 50 * MS;
             }
